@@ -336,7 +336,7 @@ def _read_healsparse_fits_file(filename, pixels=None):
         # Convert back to boolean or bit_packed
         if 'BITPACK' in s_hdr and s_hdr['BITPACK']:
             sparse_map = _PackedBoolArray(data_buffer=sparse_map)
-        else:
+        elif primary is None:
             sparse_map = sparse_map.astype(bool)
 
     return cov_map, sparse_map, nside_sparse, primary, sentinel
